@@ -100,7 +100,18 @@ static pixman_image_t *d_make_src(int kind, uint32_t *buf)
     return s;
 }
 
-typedef struct { int nglyph; int ndfmt; int npos; } d_ctx;
+/* every operator the library defines (the glyph entry points take any of them) */
+static const pixman_op_t d_allops[] = {
+    PIXMAN_OP_CLEAR, PIXMAN_OP_SRC, PIXMAN_OP_DST, PIXMAN_OP_OVER, PIXMAN_OP_OVER_REVERSE, PIXMAN_OP_IN, PIXMAN_OP_IN_REVERSE, PIXMAN_OP_OUT, PIXMAN_OP_OUT_REVERSE,
+    PIXMAN_OP_ATOP, PIXMAN_OP_ATOP_REVERSE, PIXMAN_OP_XOR, PIXMAN_OP_ADD, PIXMAN_OP_SATURATE,
+    PIXMAN_OP_DISJOINT_CLEAR, PIXMAN_OP_DISJOINT_SRC, PIXMAN_OP_DISJOINT_DST, PIXMAN_OP_DISJOINT_OVER, PIXMAN_OP_DISJOINT_OVER_REVERSE, PIXMAN_OP_DISJOINT_IN,
+    PIXMAN_OP_DISJOINT_IN_REVERSE, PIXMAN_OP_DISJOINT_OUT, PIXMAN_OP_DISJOINT_OUT_REVERSE, PIXMAN_OP_DISJOINT_ATOP, PIXMAN_OP_DISJOINT_ATOP_REVERSE, PIXMAN_OP_DISJOINT_XOR,
+    PIXMAN_OP_CONJOINT_CLEAR, PIXMAN_OP_CONJOINT_SRC, PIXMAN_OP_CONJOINT_DST, PIXMAN_OP_CONJOINT_OVER, PIXMAN_OP_CONJOINT_OVER_REVERSE, PIXMAN_OP_CONJOINT_IN,
+    PIXMAN_OP_CONJOINT_IN_REVERSE, PIXMAN_OP_CONJOINT_OUT, PIXMAN_OP_CONJOINT_OUT_REVERSE, PIXMAN_OP_CONJOINT_ATOP, PIXMAN_OP_CONJOINT_ATOP_REVERSE, PIXMAN_OP_CONJOINT_XOR,
+    PIXMAN_OP_MULTIPLY, PIXMAN_OP_SCREEN, PIXMAN_OP_OVERLAY, PIXMAN_OP_DARKEN, PIXMAN_OP_LIGHTEN, PIXMAN_OP_COLOR_DODGE, PIXMAN_OP_COLOR_BURN, PIXMAN_OP_HARD_LIGHT,
+    PIXMAN_OP_SOFT_LIGHT, PIXMAN_OP_DIFFERENCE, PIXMAN_OP_EXCLUSION, PIXMAN_OP_HSL_HUE, PIXMAN_OP_HSL_SATURATION, PIXMAN_OP_HSL_COLOR, PIXMAN_OP_HSL_LUMINOSITY };
+#define D_NALLOPS ((int)(sizeof d_allops / sizeof d_allops[0]))
+typedef struct { int nglyph; int ndfmt; int npos; int allops; } d_ctx;
 
 static pixman_glyph_cache_t *d_cache;        /* per process; emptied at the end of every case */
 
@@ -108,18 +119,19 @@ static void d_case(uint64_t idx, void *vctx)
 {
     d_ctx *c = vctx; int n = c->nglyph;
     int dims[12], v[12], nd = 0;
-    dims[nd++] = D_NAPI; dims[nd++] = 6; dims[nd++] = D_NSRC; dims[nd++] = c->ndfmt; dims[nd++] = D_NOFF; dims[nd++] = D_NCLIP; dims[nd++] = n ? D_NCOMBO : 1;
+    dims[nd++] = D_NAPI; dims[nd++] = c->allops ? D_NALLOPS : 6; dims[nd++] = D_NSRC; dims[nd++] = c->ndfmt; dims[nd++] = D_NOFF; dims[nd++] = D_NCLIP; dims[nd++] = n ? D_NCOMBO : 1;
     for (int i = 0; i < n; i++) dims[nd++] = c->npos;
     vf_decode(idx, dims, nd, v);
     int api = v[0], opi = v[1], srck = v[2], dfi = v[3], offi = v[4], clip = v[5], combo = v[6];
     int pos[3] = { 0, 0, 0 }; for (int i = 0; i < n; i++) pos[i] = v[7 + i];
     if (combo >= 5 && api != 0) return;
-    pixman_op_t op = d_ops[opi]; pixman_format_code_t df = d_dfmt[dfi];
+    pixman_op_t op = c->allops ? d_allops[opi] : d_ops[opi]; pixman_format_code_t df = d_dfmt[dfi];
+    char opnm[24]; if (c->allops) snprintf(opnm, sizeof opnm, "op#%#x", (unsigned)op); else snprintf(opnm, sizeof opnm, "%s", d_opname[opi]);
     int dest_x = d_off[offi][0], dest_y = d_off[offi][1], src_x = d_off[offi][2], src_y = d_off[offi][3];
 
     char desc[400]; size_t dl = 0;
     dl += snprintf(desc + dl, sizeof desc - dl, "%s op=%s src=%s dest=%s(8x6) clip=%s dest_xy=(%d,%d) src_xy=(%d,%d) glyphs=%d[%s]", api == 0 ? "composite_glyphs_no_mask" : "composite_glyphs",
-                   d_opname[opi], d_srcname[srck], d_dfmtname[dfi], d_clipname[clip], dest_x, dest_y, src_x, src_y, n, n ? d_comboname[combo] : "-");
+                   opnm, d_srcname[srck], d_dfmtname[dfi], d_clipname[clip], dest_x, dest_y, src_x, src_y, n, n ? d_comboname[combo] : "-");
     for (int i = 0; i < n; i++) dl += snprintf(desc + dl, sizeof desc - dl, " g%d:%s", i, d_posname[pos[i]]);
 
     /* glyph images (the harness's own copies) */
@@ -238,6 +250,14 @@ static void d_case(uint64_t idx, void *vctx)
         }
         if (!vf_failed() && memcmp(lib, ref, sizeof(uint32_t) * sw * DH)) {
             int at = 0; for (int i = 0; i < sw * DH; i++) if (lib[i] != ref[i]) { at = i; break; }
+            /* Recorded finding: pixman_composite_glyphs_no_mask hands the operator to the implementation lookup as given, while pixman_image_composite32 first
+             * reduces it (optimize_operator: DISJOINT_SRC -> SRC, CONJOINT_OVER with an opaque pair -> SRC, ...).  For the DISJOINT / CONJOINT families the
+             * unreduced operator is evaluated in floating point and the reduced one in 8-bit integers, which may differ by one step per channel.  Classified as
+             * that finding only if: no_mask entry point, operator of those two families, a8r8g8b8 destination, every channel within one step. */
+            int onestep = api == 0 && df == PIXMAN_a8r8g8b8 && (unsigned)op >= 0x10 && (unsigned)op <= 0x2b;
+            for (int i = 0; i < sw * DH && onestep; i++) for (int sh = 0; sh < 32; sh += 8) { int a = (int)(lib[i] >> sh & 255), b = (int)(ref[i] >> sh & 255); if (a - b > 1 || b - a > 1) onestep = 0; }
+            if (onestep) vf_violation("c17-no-mask-float-operator-not-reduced-one-step", "%s: destination word %d (row %d) is %#010x, per-glyph composite32 gives %#010x: one step per channel at most", desc, at, at / sw, lib[at], ref[at]);
+            else
             vf_violation(api == 0 ? "c17-draw-no-mask-differs" : "c17-draw-mask-differs", "%s: destination word %d (row %d) is %#010x, per-glyph reference %#010x (initial %#010x)", desc, at, at / sw, lib[at], ref[at], init[at]);
         }
         vf_count_eval(1);
